@@ -395,10 +395,10 @@ func Run(raw json.RawMessage) (any, error) {
 		case "merge":
 			qs = []string{"call dolt_conflicts_resolve('--theirs','t')", "call dolt_commit('-am','merge finished after gc')"}
 		case "cherry":
-			qs = []string{"call dolt_conflicts_resolve('--theirs','t')", "call dolt_add('t')", "call dolt_cherry_pick('--continue')"}
+			qs = []string{"call dolt_conflicts_resolve('--theirs','t')", "call dolt_add('-A')", "call dolt_cherry_pick('--continue')"}
 		case "rebase_conflict":
 			branch = "dolt_rebase_other"
-			qs = []string{"call dolt_conflicts_resolve('--theirs','t')", "call dolt_add('t')", "call dolt_rebase('--continue')"}
+			qs = []string{"call dolt_conflicts_resolve('--theirs','t')", "call dolt_add('-A')", "call dolt_rebase('--continue')"}
 		case "rebase":
 			branch = "dolt_rebase_other"
 			qs = []string{"call dolt_rebase('--abort')"}
